@@ -245,9 +245,15 @@ def run(a, res):
                     if fetched:
                         n_inside_refetch += 1
                         phase = "before-origin-headers" if rec["t_after"] < getattr(first, "wall_resp_start", w_hi) else "during-origin-body"
+                        early = [q for q in oreqs[1:] if q.wall_recv < getattr(first, "wall_resp_start", w_lo)] if kind.startswith("smp") else []
                         if racing:
                             phase = "after-racing-leaders"      # several workers had begun fetching the URL at the same instant
                             res.count(f"refetch_after_racing_leaders:{kind}")
+                        elif len(early) >= 2:
+                            # the same SMP breakdown seen from the origin: three or more fetches of the URL were in flight before the
+                            # first response had sent a byte (the simultaneous start itself could not be established from the stamps)
+                            phase = "multi-leader-cascade"
+                            res.count(f"refetch_in_multi_leader_cascade:{kind}")
                         res.violation(f"extra-fetch-inside-window:{kind}:{phase}",
                                       f"cfg={c['cfg']} burst of {k}: request {rec['req_id']} was sent {rec['t_before'] - w_lo:.3f}s after the origin received the first request "
                                       f"({first.req_id}) and {w_hi - rec['t_after']:.3f}s before the origin finished sending its response (W={w_hi - w_lo:.3f}s, "
